@@ -1,6 +1,8 @@
 //! C16 - reported segment offsets are the real byte boundaries of the written package.
 
+use super::built::{apply_op, op_cheap, Op};
 use super::common::*;
+use serde::{Deserialize, Serialize};
 use crate::engine::*;
 use crate::gen::pool::pool;
 use crate::gen::raw;
@@ -10,110 +12,150 @@ use std::sync::Arc;
 
 pub struct C16;
 
+#[derive(Serialize, Deserialize, Clone, Debug)]
+pub enum C16Case {
+    Pkg(PkgCase),
+    /// offsets are queried on the SAME package value before and after every operation
+    History { base: u16, ops: Vec<Op> },
+}
+
 impl Property for C16 {
-    type Case = PkgCase;
+    type Case = C16Case;
     const ID: &'static str = "C16";
 
     fn new(_tier: Tier) -> Self {
         C16
     }
     fn rule(&self) -> String {
-        "cases: hand-encoded packages with any entry count and store size (all signature-header sizes mod 8), the package pool, and mutations of both. Non-trivial = accepted by Package::parse; distinct by (il_sig, dl_sig, il_hdr, dl_hdr, payload length).".into()
+        "cases: hand-encoded packages with any entry count and store size (all signature-header sizes mod 8), the package pool, and mutations of both; plus sign/clear/re-parse histories on pool packages with the offsets queried on the same package value before and after every step. Non-trivial = accepted by Package::parse; distinct by (il_sig, dl_sig, il_hdr, dl_hdr, payload length).".into()
     }
     fn assumptions(&self) -> Vec<String> {
         vec!["segment boundaries are recomputed from the written bytes by the reference decoder".into()]
     }
     fn required_labels(&self, _t: Tier) -> Vec<&'static str> {
-        vec!["accepted", "pad-0", "pad-1", "pad-2", "pad-3", "pad-4", "pad-5", "pad-6", "pad-7", "il-0", "il-many"]
+        vec!["accepted", "history", "pad-0", "pad-1", "pad-2", "pad-3", "pad-4", "pad-5", "pad-6", "pad-7", "il-0", "il-many"]
     }
-    fn phases(&self, tier: Tier) -> Vec<Phase<PkgCase>> {
+    fn phases(&self, tier: Tier) -> Vec<Phase<C16Case>> {
         vec![
             Phase::Enumerate {
                 name: "pool",
                 total: pool().len() as u64,
-                gen: Arc::new(|i| Some(PkgCase::Pool(i as u16))),
+                gen: Arc::new(|i| Some(C16Case::Pkg(PkgCase::Pool(i as u16)))),
                 exhaustive: false,
             },
             Phase::Random {
                 name: "constructed",
                 cases: tier.pick(60_000, 1_200_000),
-                strat: Arc::new(|| raw::raw_package(false).prop_map(PkgCase::Raw).boxed()),
+                strat: Arc::new(|| raw::raw_package(false).prop_map(|r| C16Case::Pkg(PkgCase::Raw(r))).boxed()),
             },
             Phase::Random {
                 name: "pool-mutated",
                 cases: tier.pick(20_000, 400_000),
-                strat: Arc::new(|| mutated_pool(40_000, 2)),
+                strat: Arc::new(|| mutated_pool(40_000, 2).prop_map(C16Case::Pkg).boxed()),
+            },
+            Phase::Random {
+                name: "sign-clear-histories",
+                cases: tier.pick(1_500, 30_000),
+                strat: Arc::new(|| (proptest::sample::select(small_pool_indices(30_000)), proptest::collection::vec(op_cheap(), 1..5)).prop_map(|(base, ops)| C16Case::History { base, ops }).boxed()),
             },
         ]
     }
 
-    fn check(&self, case: &PkgCase) -> Outcome {
+    fn check(&self, case: &C16Case) -> Outcome {
         let mut o = Outcome::new();
-        let x = case.bytes();
-        o.label(case.kind());
-        let p = match panics::catch(|| rpm::Package::parse(&mut &x[..])) {
-            Ok(Ok(p)) => p,
-            Ok(Err(_)) => {
-                o.label("rejected");
-                return o;
+        match case {
+            C16Case::Pkg(pc) => {
+                let x = pc.bytes();
+                o.label(pc.kind());
+                let p = match panics::catch(|| rpm::Package::parse(&mut &x[..])) {
+                    Ok(Ok(p)) => p,
+                    Ok(Err(_)) => {
+                        o.label("rejected");
+                        return o;
+                    }
+                    Err(_) => {
+                        o.label("crashed");
+                        return o;
+                    }
+                };
+                o.label("accepted");
+                check_offsets(&p, &mut o, "after parse");
             }
-            Err(_) => {
-                o.label("crashed");
-                return o;
+            C16Case::History { base, ops } => {
+                o.label("history");
+                let x = &pool()[*base as usize % pool().len()].bytes;
+                let Ok(mut p) = rpm::Package::parse(&mut &x[..]) else { return o };
+                check_offsets(&p, &mut o, "start");
+                for (i, op) in ops.iter().enumerate() {
+                    if o.failed() {
+                        break;
+                    }
+                    if let Err((c, d)) = apply_op(&mut p, op) {
+                        // failing operations are C10's business
+                        o.label(format!("op-failed-{c}"));
+                        let _ = d;
+                        break;
+                    }
+                    check_offsets(&p, &mut o, &format!("after step {i} ({op:?}) of {ops:?}"));
+                }
             }
-        };
-        o.label("accepted");
-        let r = panics::catch(|| {
-            let mut w = Vec::new();
-            p.write(&mut w).map(|_| (w, p.metadata.get_package_segment_offsets()))
-        });
-        let (w, off) = match r {
-            Ok(Ok(v)) => v,
-            Ok(Err(e)) => {
-                o.fail("write-error", e.to_string());
-                return o;
-            }
-            Err(pn) => {
-                o.fail("offsets-panic", pn);
-                return o;
-            }
-        };
-        let seg = match fmt::decode(&w) {
-            Ok(s) => s,
-            Err(e) => {
-                o.fail("written-unsegmentable", e);
-                return o;
-            }
-        };
-        o.label(format!("pad-{}", fmt::sig_padding(seg.sig.dl)));
-        o.label(match seg.sig.il { 0 => "il-0", 1..=3 => "il-few", _ => "il-many" });
-        o.nontrivial_key(fnv1a(
-            format!("{}/{}/{}/{}/{}", seg.sig.il, seg.sig.dl, seg.hdr.il, seg.hdr.dl, w.len() - seg.payload_start).as_bytes(),
-        ));
-        if off.lead != 0 {
-            o.fail("lead-offset", format!("lead offset {} != 0", off.lead));
-        }
-        if off.signature_header != seg.sig.start as u64 {
-            o.fail("sig-offset", format!("reported {} but signature header starts at {}", off.signature_header, seg.sig.start));
-        }
-        if off.header != seg.hdr.start as u64 {
-            o.fail("header-offset", format!("reported {} but main header starts at {}", off.header, seg.hdr.start));
-        }
-        if off.payload != seg.payload_start as u64 {
-            o.fail("payload-offset", format!("reported {} but payload starts at {}", off.payload, seg.payload_start));
-        }
-        if !(off.lead < off.signature_header && off.signature_header < off.header && off.header < off.payload) {
-            o.fail("not-increasing", format!("{:?}", off));
-        }
-        for (name, at) in [("signature", off.signature_header), ("header", off.header)] {
-            let at = at as usize;
-            if w.get(at..at + 3) != Some(&fmt::HDR_MAGIC[..]) {
-                o.fail("no-intro-at-offset", format!("no header magic at the reported {name} offset {at}"));
-            }
-        }
-        if (w.len() as u64).checked_sub(off.payload) != Some(p.content.len() as u64) {
-            o.fail("payload-length", format!("len {} - payload offset {} != content length {}", w.len(), off.payload, p.content.len()));
         }
         o
+    }
+}
+
+fn check_offsets(p: &rpm::Package, o: &mut Outcome, stage: &str) {
+    let r = panics::catch(|| {
+        let mut w = Vec::new();
+        p.write(&mut w).map(|_| (w, p.metadata.get_package_segment_offsets()))
+    });
+    let (w, off) = match r {
+        Ok(Ok(v)) => v,
+        Ok(Err(e)) => {
+            o.fail("write-error", e.to_string());
+            return;
+        }
+        Err(pn) => {
+            o.fail("offsets-panic", pn);
+            return;
+        }
+    };
+    let seg = match fmt::decode(&w) {
+        Ok(s) => s,
+        Err(e) => {
+            o.fail("written-unsegmentable", e);
+            return;
+        }
+    };
+    o.label(format!("pad-{}", fmt::sig_padding(seg.sig.dl)));
+    o.label(match seg.sig.il {
+        0 => "il-0",
+        1..=3 => "il-few",
+        _ => "il-many",
+    });
+    o.nontrivial_key(fnv1a(format!("{}/{}/{}/{}/{}", seg.sig.il, seg.sig.dl, seg.hdr.il, seg.hdr.dl, w.len() - seg.payload_start).as_bytes()));
+    if off.lead != 0 {
+        o.fail("lead-offset", format!("{stage}: lead offset {} != 0", off.lead));
+    }
+    if off.signature_header != seg.sig.start as u64 {
+        o.fail("sig-offset", format!("{stage}: reported {} but signature header starts at {}", off.signature_header, seg.sig.start));
+    }
+    if off.header != seg.hdr.start as u64 {
+        o.fail("header-offset", format!("{stage}: reported {} but main header starts at {}", off.header, seg.hdr.start));
+    }
+    if off.payload != seg.payload_start as u64 {
+        o.fail("payload-offset", format!("{stage}: reported {} but payload starts at {}", off.payload, seg.payload_start));
+    }
+    if !(off.lead < off.signature_header && off.signature_header < off.header && off.header < off.payload) {
+        o.fail("not-increasing", format!("{stage}: {:?}", off));
+    }
+    for (name, at) in [("signature", off.signature_header), ("header", off.header)] {
+        let at = at as usize;
+        if w.get(at..at + 3) != Some(&fmt::HDR_MAGIC[..]) {
+            o.fail("no-intro-at-offset", format!("{stage}: no header magic at the reported {name} offset {at}"));
+        }
+    }
+    if (w.len() as u64).checked_sub(off.payload) != Some(p.content.len() as u64) {
+        o.fail("payload-length", format!("{stage}: len {} - payload offset {} != content length {}", w.len(), off.payload, p.content.len()));
     }
 }
